@@ -10,7 +10,7 @@ BASES = [0, 0, 0x10, 0x100, 0xfff0, 0xfffe, 0x10000, 0x1fff0, 0xfffff0, 0x100000
 
 IMAGE_CPUS = ["msp430", "z80", "68000", "mips", "arm", "avr8", "pic14", "propeller", "ebpf", "65816",
               "6502", "riscv", "lc3", "stm8", "tms9900", "8051", "powerpc", "dspic", "thumb", "1802",
-              "f100_l", "cp1610", "pdp8", "8008", "tms1000", "xtensa", "sh4", "riscv64", "ps2_ee"]
+              "f100_l", "cp1610", "pdp8", "8008", "tms1000", "xtensa", "sh4", "riscv64", "ps2_ee", "msp430x", "pic24"]
 
 
 def gen_image(rng, cpu=None, max_bytes=6000, max_segments=5, small=False):
